@@ -72,3 +72,52 @@ Print Assumptions C07_pipeline_session.
    same; with the oversized message first it is not parked (control) *)
 Example C07_witness_pipeline : let c := {| max_request := 100; max_response := 40 |} in let m i n := {| pm_id := i; pm_size := n |} in ws_pipeline_session EpServer c 1 [m 1 80; m 2 80; m 3 80; m 4 101; m 5 60] = Some ([PAnswered 1; PAnswered 2; PAnswered 3; PRejected 100; PAnswered 5], true, true) /\ ws_pipeline_session EpWsConnect c 1 [m 4 101; m 1 80; m 2 80] = Some ([PRejected 100; PAnswered 1; PAnswered 2], true, false) /\ ws_pipeline_session EpTower c 2 [m 1 80; m 4 400; m 6 101; m 2 100] = Some ([PAnswered 1; PRejected 100; PRejected 100; PAnswered 2], true, true) /\ ws_pipeline_session EpHttpCall c 1 [m 1 80] = None.
 Proof. vm_compute. repeat split. Qed.
+
+(* ---- fragmented messages (RFC 6455 continuation frames).  `ws_read l r fresh frames` is the frame-level reader: soketto's
+   accumulation in `receive` + the receive loop of background_task; `fresh` = is the Vec handed to receive() a new one per
+   call.  The theorems are stated for the GENERATED `ws_recv_buffer_fresh` (read from the unfold closure in
+   server/src/transport/ws.rs) and proved by rewriting it to `true`: a buffer that lives across receive() calls stops
+   the build here.  `msg_frames fr` = the frames of one message cut into the fragments fr.  C07's rejection / keeps-serving
+   clauses are claimed for single-frame messages; for fragmented ones the safety half is claimed for EVERY frame stream
+   (C07_frag_no_carry_over), the full outcome for a client that stays in step with soketto's discard (`in_step`: after
+   the message it supplies `filler` unframed bytes so that exactly the accumulated length soketto discards in excess of
+   the offending frame lies before the next frame header). *)
+
+Theorem C07_frag_total_decides : forall (e : ep) (c : cfg) (l : N) (fr : list bytes) (filler : N) (rest : list wframe), ws_limit_of e c = Some l -> fr <> [] -> in_step (max_request c) fr filler = true -> let rd := ws_read l (ws_reported_limit c) ws_recv_buffer_fresh in rd (msg_frames fr ++ WRaw filler :: rest) = rd (msg_frames [concat fr] ++ rest) /\ rd (msg_frames [concat fr] ++ rest) = (if blen (concat fr) <=? max_request c then FDispatched (concat fr) else FTooBig (max_request c)) :: rd rest.
+Proof. exact frag_total_decides. Qed.
+Print Assumptions C07_frag_total_decides.
+
+(* every frame stream, in step or not: a dispatched text is never longer than the limit, and it is exactly the text of ONE
+   complete message `block` of the stream (Text .. FIN, only Pings between its fragments) which the reader began in the
+   state of a new connection (`ws_init`: empty buffer, no fragment pending) -- nothing of what came before it, in
+   particular no byte of a rejected message, is part of it *)
+Theorem C07_frag_no_carry_over : forall (e : ep) (c : cfg) (l : N) (fs : list wframe) (t : bytes), ws_limit_of e c = Some l -> In (FDispatched t) (ws_read l (ws_reported_limit c) ws_recv_buffer_fresh fs) -> blen t <= max_request c /\ exists (pre block post : list wframe) (evs : list fev), fs = pre ++ block ++ post /\ ws_run l (ws_reported_limit c) ws_recv_buffer_fresh ws_init pre = (evs, Some ws_init) /\ block_text block = Some t.
+Proof. exact frag_no_carry_over. Qed.
+Print Assumptions C07_frag_no_carry_over.
+
+(* the frame on which a rejection goes out (connection not lost) leaves the reader in the state of a new connection: what
+   follows is read as if it came alone *)
+Theorem C07_frag_reject_resets : forall (e : ep) (c : cfg) (l : N) (fs0 : list wframe) (f : wframe) (rest : list wframe) (evs0 evs1 : list fev) (st0 st : rstate) (x : N), ws_limit_of e c = Some l -> ws_run l (ws_reported_limit c) ws_recv_buffer_fresh ws_init fs0 = (evs0, Some st0) -> ws_step l (ws_reported_limit c) ws_recv_buffer_fresh st0 f = (evs1, Some st) -> In (FTooBig x) evs1 -> ws_read l (ws_reported_limit c) ws_recv_buffer_fresh (fs0 ++ f :: rest) = evs0 ++ FTooBig (max_request c) :: ws_read l (ws_reported_limit c) ws_recv_buffer_fresh rest.
+Proof. exact frag_reject_resets. Qed.
+Print Assumptions C07_frag_reject_resets.
+
+(* the in-step hypothesis is satisfiable (112 + 64 bytes under a limit of 128 need 112 filler bytes; 100 + 64 + 10 need
+   100 - (6 + 10) = 84; an in-limit message needs none) and not trivially so (no filler keeps 176 + 64 in step: the
+   continuation frame follows the rejection) *)
+Example C07_witness_in_step : let a := repeat x61 112 in let b := repeat x61 64 in in_step 128 [a; b] 112 = true /\ in_step 128 [a; b] 0 = false /\ in_step 128 [repeat x61 100; b; repeat x61 10] 84 = true /\ in_step 128 [b; b] 0 = true /\ in_step 128 [b; b] 1 = false /\ in_step 128 [b ++ a; b] 0 = false /\ in_step 128 [b ++ a] 0 = true.
+Proof. vm_compute. repeat split. Qed.
+
+(* limit 128: fragments 112 + 64 are rejected (the 112 bytes soketto over-discards supplied as filler); the next message of
+   44 bytes is judged alone.  With a buffer carried across receive() calls (fresh = false) the same frames hand 112 + 44 =
+   156 bytes -- the first fragment of the rejected message and the next message -- to the dispatcher. *)
+Example C07_witness_frag : let c := {| max_request := 128; max_response := 65536 |} in let a := repeat x61 112 in let b := repeat x61 64 in let t := repeat x63 44 in let fs := msg_frames [a; b] ++ WRaw 112 :: msg_frames [t] in ws_frag_session EpServer c fs = Some [FTooBig 128; FDispatched t] /\ ws_frag_session EpWsConnect c fs = Some [FTooBig 128; FDispatched t] /\ ws_read 128 128 false fs = [FTooBig 128; FDispatched (a ++ t)] /\ ws_frag_session EpTower c (msg_frames [repeat x61 100; repeat x61 28] ++ msg_frames [[]; t; []] ++ [WData true false t; WPing [x61]; WData false true t]) = Some [FDispatched (repeat x61 128); FDispatched t; FPong [x61]; FDispatched (t ++ t)].
+Proof. vm_compute. repeat split. Qed.
+
+(* what the faithful model says about a client that does NOT stay in step (observed on the code too: the engine's naive
+   scripts are diffed against the model): the rejection is withheld while soketto waits for bytes to discard, the
+   client's next messages are swallowed and the frame stream is left inside a frame; a continuation frame after the
+   rejection, or an unsolicited Pong between two fragments of an in-limit message, ends the connection with a protocol
+   error.  Nothing is dispatched in any of them. *)
+Theorem C07_frag_out_of_step_observed : exists (a b call : bytes), let rd := ws_read 128 128 true in blen (a ++ b) = 176 /\ blen call = 55 /\ rd (msg_frames [a; b]) = [FStalled] /\ rd (msg_frames [a; b] ++ msg_frames [call]) = [FStalled] /\ rd (msg_frames [a; b] ++ msg_frames [call] ++ msg_frames [call]) = [FTooBig 128; FDesync] /\ rd (msg_frames [b ++ a; b] ++ msg_frames [call]) = [FTooBig 128; FProtoErr] /\ rd (msg_frames [b ++ a; b ++ a] ++ msg_frames [call]) = [FTooBig 128; FTooBig 128; FDispatched call] /\ rd ([WData true false call; WPong []; WData false true call] ++ msg_frames [call]) = [FProtoErr].
+Proof. exists (repeat x61 112), (repeat x61 64), (repeat x7b 55). vm_compute. repeat split. Qed.
+Print Assumptions C07_frag_out_of_step_observed.
